@@ -147,9 +147,10 @@ def evaluate(ctx, part0, sessions, contents, refs, do_minimize=True, tag=None):
         ctx.count(part, sessions={'n': 1})
         model_bad = [(i, c) for i, c in cs if c in ('model', 'harness')]
         variant = S.matches_variant(ctx, f'{tag}_variant_{si}', s, r, refs) if model_bad else None
-        if variant == 'repaired':   # proved sound (C08_content_key_refines_run): not a disagreement worth an alarm
-            ctx.note(f'{part}#{si}: the implementation behaves like the content-keyed (repaired) cache, not like the path-keyed one')
-            ctx.count(part, repaired_cache_sessions=1)
+        if variant and variant.startswith('repaired'):   # proved sound in Coq: not a disagreement worth an alarm
+            ctx.note(f'{part}#{si}: the implementation behaves like the {variant} variant of the model, not like the code the '
+                     'model was written from')
+            ctx.count(part, repaired_variant_sessions=1)
         elif model_bad:
             i = model_bad[0][0]
             ctx.violate('corr', f'model:{s["ops"][i][0]}:{r["obs"][i]["out"][0]}',
